@@ -1,12 +1,12 @@
 (* C01  Bash target preserves scalar expression and control-flow semantics.  PARTIAL.
    Proved: (1) expressions - for every call-free scalar expression the emitted lines compute the source value in the shell
-   (any nesting depth, any operator mix, all int64 values, strings as data); (2) integer literals keep their value through
+   (any nesting depth, any operator mix, all int64 values, strings as data, len of strings); (2) integer literals keep their value through
    printing and re-reading; (3) the reference arithmetic is Go's int64 arithmetic; (4) straight-line programs
    (C01_straight_line_preserved); (5) conditionals at any nesting depth (C01_conditionals_preserved); (6) terminating
    programs with loops, break, continue, simultaneous assignments and call statements (C01_loops_preserved); (7) the source
    semantics of these theorems is executable (C01_source_semantics_executable); (8) whole programs end to end
    (C01_program_preserved): interpreter answer + decidable name check => the emitted script prints it; (9) the statement
-   structure of the script (C16/C04 theorems).  NOT covered by a theorem: slices, strings as sequences (len, subscripts),
+   structure of the script (C16/C04 theorems).  NOT covered by a theorem: slices, subscripts of strings,
    calls as operands or arguments, panic, non-terminating runs; these are decided on generated programs by running the
    implementation's script under /bin/bash against Sem/Src.v. *)
 From Verif Require Import Base.Bytestr Base.DecFacts Front.Ast Front.FrontModel Back.BashLines Back.Transpile Back.BashConv
@@ -185,7 +185,7 @@ Proof. exact program_preserved. Qed.
 Print Assumptions C01_program_preserved.
 
 (* the hypotheses hold, by computation, for the sample programs: loop with break and continue; function called twice;
-   swap and two results; early return and a function without results; return inside a loop *)
+   swap and two results; early return and a function without results; return inside a loop; len of strings *)
 Example C01_program_samples :
   (jprogram 2000 SimSamples.prog3 <> None /\ program_static SimSamples.prog3 = true) /\
   (jprogram 2000 (SimSamples.add_def :: SimSamples.main_add) = Some (bs "in 42" ++ [10] ++ bs "42 1" ++ [10] ++ bs "in 84" ++ [10]) /\
@@ -193,5 +193,6 @@ Example C01_program_samples :
   (jprogram 2000 (SimSamples.dm_def :: SimSamples.main_dm) = Some (bs "5 17 0 5" ++ [10]) /\ program_static (SimSamples.dm_def :: SimSamples.main_dm) = true) /\
   (jprogram 2000 (SimSamples.abs_def :: SimSamples.show_def :: SimSamples.main_abs) = Some (bs "v 8" ++ [10]) /\
    program_static (SimSamples.abs_def :: SimSamples.show_def :: SimSamples.main_abs) = true) /\
-  (jprogram 2000 (SimSamples.find_def :: SimSamples.main_find) = Some (bs "4" ++ [10]) /\ program_static (SimSamples.find_def :: SimSamples.main_find) = true).
+  (jprogram 2000 (SimSamples.find_def :: SimSamples.main_find) = Some (bs "4" ++ [10]) /\ program_static (SimSamples.find_def :: SimSamples.main_find) = true) /\
+  (jprogram 2000 SimSamples.prog_len = Some (bs "6 12" ++ [10]) /\ program_static SimSamples.prog_len = true).
 Proof. vm_compute. repeat split; try reflexivity. intro H; discriminate H. Qed.
